@@ -224,7 +224,18 @@ func (w *world) reset(ext []jEntry) {
 	w.w.Emit(e)
 }
 
-var templates = []func() *tinkpb.KeyTemplate{aead.AES128GCMKeyTemplate, mac.HMACSHA256Tag128KeyTemplate, aead.AES256GCMKeyTemplate}
+// templates with an ID requirement: every non-RAW prefix type (TINK, CRUNCHY, LEGACY) over several key types
+func withPrefix(f func() *tinkpb.KeyTemplate, pt tinkpb.OutputPrefixType) func() *tinkpb.KeyTemplate {
+	return func() *tinkpb.KeyTemplate { kt := f(); kt.OutputPrefixType = pt; return kt }
+}
+
+var templates = []func() *tinkpb.KeyTemplate{
+	aead.AES128GCMKeyTemplate, mac.HMACSHA256Tag128KeyTemplate, aead.AES256GCMKeyTemplate,
+	withPrefix(mac.HMACSHA256Tag128KeyTemplate, tinkpb.OutputPrefixType_LEGACY),
+	withPrefix(mac.HMACSHA256Tag128KeyTemplate, tinkpb.OutputPrefixType_CRUNCHY),
+	withPrefix(aead.AES128GCMKeyTemplate, tinkpb.OutputPrefixType_CRUNCHY),
+	withPrefix(mac.AESCMACTag128KeyTemplate, tinkpb.OutputPrefixType_LEGACY),
+}
 
 // ---- one real call per model action -------------------------------------------------------
 
@@ -244,7 +255,8 @@ func (w *world) addRandom(m int, script []uint32, withReq bool) {
 			if api == 1 {
 				p, _ = aesgcm.NewParameters(aesgcm.ParametersOpts{KeySizeInBytes: 32, IVSizeInBytes: 12, TagSizeInBytes: 16, Variant: aesgcm.VariantTink})
 			} else {
-				p, _ = hmac.NewParameters(hmac.ParametersOpts{KeySizeInBytes: 32, TagSizeInBytes: 16, HashType: hmac.SHA256, Variant: hmac.VariantCrunchy})
+				v := []hmac.Variant{hmac.VariantCrunchy, hmac.VariantLegacy, hmac.VariantTink}[w.r.Intn(3)]
+				p, _ = hmac.NewParameters(hmac.ParametersOpts{KeySizeInBytes: 32, TagSizeInBytes: 16, HashType: hmac.SHA256, Variant: v})
 			}
 			id, err = km.AddNewKeyFromParameters(p)
 		}
